@@ -20,7 +20,7 @@ EXHAUSTIVE_SUBDOMAINS = ["UF x RR x DI x RRS (131072 cells)", "UF11: PR x CL x I
                          "DI in {0,1,7} x IIS x LOS and DI=3 x SIS x LSS for UF 4/5/20/21"]
 ASSUMPTIONS = ["for DI values other than 0,1,3,7 only UF, BDS1 and the agreement of uplink_fields() with the single-field "
                "functions are judged (the SD sub-fields for those DI codes are not asserted from memory)"]
-REQUIRED = ["fields_redecode_after_caller_edit", "data_is_multiple_of_generator", "running_remainder_long_run_of_ones", "addr56", "addr112", "uf11", "rollcall", "other_uf", "di0", "di1", "di3", "di7", "di_other", "rr_low", "rr_high",
+REQUIRED = ["sibling_frames_of_the_other_length_first", "fields_redecode_after_caller_edit", "data_is_multiple_of_generator", "running_remainder_long_run_of_ones", "addr56", "addr112", "uf11", "rollcall", "other_uf", "di0", "di1", "di3", "di7", "di_other", "rr_low", "rr_high",
             "fields_agree"]
 
 
@@ -111,6 +111,15 @@ def m_fields(ctx, case):
         if rng.random() < 0.1:
             hx = hx.lower()
         e = expect(ufv, pc, rr, di, sdv, pr, icf, cl)
+        if rng.random() < 0.15:
+            # just before: frames of the OTHER length that share digits with this one - zeros followed by this frame (the same
+            # integer value), this frame followed by zeros, this frame twice, its first / last 14 digits; what they decode to is
+            # not judged here, they only come first
+            sibs = (["0" * 14 + hx, hx + "0" * 14, hx + hx] if n == 56 else [hx[:14], hx[14:]])
+            for sib in sibs:
+                for nm in ("bds", "pr", "ic", "lockout", "uplink_fields", "uf"):
+                    call(getattr(uplink, nm), sib)
+            ctx.hit("sibling_frames_of_the_other_length_first")
         got = {}
         for nm in ("uf", "bds", "pr", "ic", "lockout", "uplink_fields", "uplink_icao"):
             got[nm] = call(getattr(uplink, nm), hx)
